@@ -279,7 +279,7 @@ let adapter_of_spec s = adapter_of_parts (String.split_on_char '@' s)
 let ufun_of = function "eq" -> UEq | "neq" -> UNeq | "prefix" -> UPrefix | "true" -> UTrue
                        | _ -> failwith "ufun"
 
-type stepk = SOp of op | SQuery of query | SWlog | SReload | SFresh | SQuery2 of query
+type stepk = SOp of op | SQuery of query | SWlog | SReload | SFresh | SQuery2 of query | SFileGone of bool
 
 let rec step_of (st : string) : stepk =
   if String.length st > 2 && String.sub st 0 2 = "?2" then
@@ -336,6 +336,8 @@ and step_of1 (st : string) : stepk =
   | ["?wl"] -> SWlog
   | ["?rv"] -> SReload
   | ["FRESH"] -> SFresh
+  | ["FX"] -> SFileGone true
+  | ["FO"] -> SFileGone false
   | _ -> failwith ("step " ^ st)
 
 let errc_str = function
@@ -371,11 +373,23 @@ let run_eng_line (line : string) (spec : string) (ad : string) (flags : string) 
   | (_, Err e) -> "new=" ^ errc_str e
   | (_, Panic) -> "new=P"
   | (s0, Ok _) ->
-    let s = ref s0 and poisoned = ref false and fresh = ref None in
+    let s = ref s0 and poisoned = ref false and fresh = ref None and gone = ref false in
     let outs = if steps = "-" then [] else
         List.map (fun st ->
             if !poisoned then "X" else
               match step_of st with
+              | SFileGone b ->
+                (match !s.e_adapter with AFile _ -> gone := b; "1" | _ -> "E")
+              (* while the policy file is unavailable, a load through the file adapter fails with an I/O
+                 error and changes nothing (this failure path is specified here, in the driver: Engine.v's
+                 file adapter cannot fail) *)
+              | SOp (OLoad | OLoadFiltered _) when !gone && (match !s.e_adapter with AFile _ -> true | _ -> false) -> "EI"
+              | SReload when !gone && (match !s.e_adapter with AFile _ -> true | _ -> false) -> "EI"
+              | SOp (OSetAdapter _ as o) -> gone := false;
+                let (s', r) = step !s o in
+                s := s';
+                (match r with Panic -> poisoned := true | _ -> ());
+                outcome_str r
               | SOp o -> let (s', r) = step !s o in
                 s := s';
                 (match r, o with Panic, OSave -> () | Panic, _ -> poisoned := true | _ -> ());
@@ -940,6 +954,11 @@ let pred_c12 steps impl =
         end
       | _ -> "0"
     end
+    else if Array.length sts = 12 && sts.(4) = "FX" then
+      (* failed reload: stores and flag unchanged across it; a filtered enforcer is still refused the save and the
+         full store (read back after the file is available again) is intact *)
+      b01 (os.(5) = "EI" && os.(6) = os.(1) && os.(7) = os.(2) && os.(8) = os.(3)
+           && (if os.(3) = "1" then os.(10) = "P" else true))
     else if Array.length sts = 4 && sts.(1) = "?if" then
       (* constructor on a pre-filtered adapter: no load, save refused *)
       b01 (os.(0) = "-" && os.(1) = "1" && os.(2) = "P")
